@@ -278,6 +278,11 @@ class Unstack(ArrayOpSpec):
         for j, r in enumerate(res):
             yield f"shape[{j}]", c.eq_tuple(r.shape, x.shape[:ax] + x.shape[ax + 1:])
 
+    def replay_case(self, cfg, model):
+        ax, n = cfg["axis"], cfg["n"]
+        return ({"x": (cfg["ndim"], {ax: n})}, f"lambda xp, a: tuple(xp.unstack(a['x'], axis={ax}))",
+                f"lambda np, a: tuple(np.take(a['x'], i, axis={ax}) for i in range({n}))")
+
 
 @register
 class ReshapeChunks(ArrayOpSpec):
@@ -328,6 +333,10 @@ class ExpandDims(ArrayOpSpec):
         x, ax = a[0], k["axis"]
         yield "shape", c.eq_tuple(res.shape, x.shape[:ax] + (1,) + x.shape[ax:])
 
+    def replay_case(self, cfg, model):
+        ax = cfg["axis"]
+        return ({"x": (cfg["ndim"], None)}, f"lambda xp, a: xp.expand_dims(a['x'], axis={ax})", f"lambda np, a: np.expand_dims(a['x'], {ax})")
+
 
 @register
 class PermuteDims(ArrayOpSpec):
@@ -359,3 +368,7 @@ class PermuteDims(ArrayOpSpec):
     def ensures(self, c, a, k, res):
         x, axes = a
         yield "shape", c.eq_tuple(res.shape, tuple(x.shape[i] for i in axes))
+
+    def replay_case(self, cfg, model):
+        axes = tuple(cfg["axes"])
+        return ({"x": (cfg["ndim"], None)}, f"lambda xp, a: xp.permute_dims(a['x'], {axes!r})", f"lambda np, a: np.transpose(a['x'], {axes!r})")
